@@ -2043,6 +2043,16 @@ theorem C10_collector_shapes :
     Gen.C10.emitHelpersDelegate = true ∧ Gen.C10.emitRefusesAfterFinish = false :=
   ⟨rfl, rfl, rfl, rfl⟩
 
+/-- `_serve_stream` ends a stream silently only when the CLIENT's input ends (the `StopIteration` of the input read, caught
+around that one call); every exception out of the loop body — `state.process()` included, whatever its class, also the
+classes the framework's own control flow uses (StopIteration, EOFError, BrokenPipeError, ArrowInvalid …) — reaches the single
+`except Exception` that writes the error batch.  This is what `processStep (.raise e) = .fail (… ++ [.err e])` models for
+EVERY exception `e`. -/
+theorem C10_serve_loop_shapes :
+    Gen.C10.serveLoopHandlers = ["Exception"] ∧
+    Gen.C10.serveLoopSilentExits = ["input_reader.read_next_batch_with_custom_metadata() | StopIteration -> break"] :=
+  ⟨rfl, rfl⟩
+
 /-- "An emit and finish in the same step still delivers that batch", at the level of the calls a state makes and in
 EITHER order, with client logs anywhere in between: for every script of well-formed steps (at most one `emit`, no
 raise; `finish()`, `emit()` and `client_log()` in any order), every init-log list and every HTTP break function, the
